@@ -551,6 +551,20 @@ func (h *hist) reqstream(c *cli, id int, null bool, req []string) {
 			c.override[id] = req
 		}
 		c.declined[id] = true
+		// the request in force for this stream is now the list the client sent: a
+		// list that is PRESENT AND EMPTY means "nothing of this stream" (the
+		// client is to be sent a close), null means "back to the request map";
+		// the two must not be confused on the way in
+		h.check("request_stream_recorded")
+		for _, d := range c.c.VerifDowns() {
+			if d.Id != sid(id) {
+				continue
+			}
+			if d.HasRequested != !null || (!null && fmt.Sprint(d.Requested) != fmt.Sprint(req)) {
+				h.fail("request_stream_recorded", fmt.Sprintf("client %d sent requestStream %d with request %s; the server recorded %s for that stream: the stream will be evaluated under another request than the one the client made",
+					c.h, id, reqString(!null, req), reqString(d.HasRequested, d.Requested)))
+			}
+		}
 	}
 }
 
